@@ -168,6 +168,15 @@ fn run_stream(alpha: &[Elt], seq: &[usize], bytewise: bool, cuts: Option<&[usize
     }
     w.settle();
     c.pump();
+    // the next connection to the same server: nothing of this stream may reach it (bytes left
+    // behind a quit or an error are never executed - not here, not later)
+    let follow: Option<Vec<u8>> = match w.connect() {
+        Ok(mut c2) => {
+            let _ = c2.step(&w, &Req::bare(op::NOOP).opaque(0xfeed_0001).bytes());
+            Some(c2.got.clone())
+        }
+        Err(_) => None,
+    };
     let dump = w.dump();
     let (resps, residue) = wire::split_responses(&c.got);
     // ---- oracle ----
@@ -272,6 +281,27 @@ fn run_stream(alpha: &[Elt], seq: &[usize], bytewise: bool, cuts: Option<&[usize
             problem = Some(("quit|not-closed".into(), "the connection was not closed after quit/quitq/undefined opcode".into()));
         } else if !expect_close && c.eof {
             problem = Some(("closed|unexpected".into(), "the server closed the connection although every request was valid".into()));
+        }
+    }
+    if problem.is_none() {
+        let ok = match &follow {
+            Some(f) => {
+                let (fr, fres) = wire::split_responses(f);
+                fres == 0 && fr.len() == 1 && fr[0].opcode == op::NOOP && fr[0].status == st::OK && fr[0].opaque == 0xfeed_0001
+            }
+            None => false,
+        };
+        if !ok {
+            problem = Some((
+                "next-connection|disturbed".into(),
+                format!(
+                    "a fresh connection opened after the stream sent one noop and received {}",
+                    match &follow {
+                        Some(f) => format!("{:?}", wire::split_responses(f).0.iter().map(|r| r.short()).collect::<Vec<_>>()),
+                        None => "no connection".to_string(),
+                    }
+                ),
+            ));
         }
     }
     if problem.is_none() {
